@@ -48,7 +48,8 @@ def evaluate(name, tier, jobs, demo, extra_props):
             r0 = sh(["/venv/bin/python", os.path.join(d, "demo.py")], cwd="/tmp", env=env0, timeout=1800)
             out["demo_exit_with_change"], out["demo_exit_without"] = r1.returncode, r0.returncode
         res = {}
-        for prop in [meta["property"]] + [x for x in extra_props if x != meta["property"]]:
+        also = [x for x in meta.get("also_check", []) if x != meta["property"]]
+        for prop in [meta["property"]] + also + [x for x in extra_props if x != meta["property"] and x not in also]:
             env = dict(os.environ, VERIF_REPO=root, VERIF_JOBS=str(jobs), VERIF_REPLAY_DIR=os.path.join(root, "replays"))
             t0 = time.time()
             r = sh([os.path.join(HERE, "check"), prop, tier, "--no-evidence"], env=env, timeout=7200)
@@ -59,7 +60,9 @@ def evaluate(name, tier, jobs, demo, extra_props):
             if r.returncode == 2:
                 res[prop]["tail"] = text[-500:]
         out["checks"] = res
-        out["caught"] = res[meta["property"]]["caught"]
+        out["caught"] = res[meta["property"]]["caught"] or any(res[x]["caught"] for x in also)
+        if not res[meta["property"]]["caught"] and out["caught"]:
+            out["caught_by"] = [x for x in also if res[x]["caught"]]
         return out
     finally:
         shutil.rmtree(root, ignore_errors=True)
